@@ -181,7 +181,7 @@ def object_histories(g, idx, res):
         got = do(a, final)
     except Exception as e:  # noqa: BLE001
         mech = f"history-makes-operation-fail:{type(e).__name__}"
-        if isinstance(e, IndexError) and "hybrid" in trail and (trail[-1] == "hourly" or final[0] == "hourly"):
+        if isinstance(e, IndexError) and ({"hybrid", "size"} & set(trail)) and ("hourly" in trail or final[0] == "hourly"):
             mech = "hourly-after-hybrid-reuses-hybrid-time-axis"
         out.append({"mechanism": mech, "message": f"ops {ops} then {final}: {type(e).__name__}: {str(e)[:100]}", "case": {**case, "ops": ops, "final": final}})
         res["object_histories"] += 1
